@@ -271,6 +271,10 @@ def _fref(model, q):
 
 
 def r_add_refusals(model, rep):
+    cats = model.const("rpms", "SUPPORTED_CATEGORIES")
+    missing = [c for c in ("binary", "debug", "source") if c not in cats]
+    rep.ob("R-ADD-REFUSALS", "SUPPORTED_CATEGORIES:documented-values", not missing, site="productmd/rpms.py",
+           msg="" if not missing else "documented RPM categories lost: %s" % missing)
     for q, label, kind, param, extra in REFUSALS:
         if q.startswith(("images.", "treeinfo.")):
             continue        # Images.add belongs to C10, Checksums.add to C16
